@@ -36,6 +36,9 @@ type RealScenario struct {
 	Responders int  `json:"responders"`
 	StrayToken bool `json:"strayToken"` // one responder also answers with a token nobody registered
 	TwoAtOnce  bool `json:"twoAtOnce"`  // two Discover calls (different tokens) run concurrently
+	// SameToken (with TwoAtOnce): the token source hands the second call the token of the first,
+	// which is still running: the second call must be refused without disturbing the first
+	SameToken bool `json:"sameToken,omitempty"`
 }
 
 func execRealOnce(sc RealScenario) *evid.Failure {
@@ -71,6 +74,9 @@ func execRealOnce(sc RealScenario) *evid.Failure {
 			mu.Lock()
 			defer mu.Unlock()
 			tokN++
+			if sc.SameToken {
+				return message.Token{0xD1, 0x01}, nil
+			}
 			return message.Token{0xD1, byte(tokN)}, nil
 		}),
 	)
@@ -164,6 +170,9 @@ func execRealOnce(sc RealScenario) *evid.Failure {
 				if !ok {
 					continue
 				}
+				if sc.SameToken {
+					time.Sleep(120 * time.Millisecond) // answer only after the colliding call was made
+				}
 				for i, rc := range responders {
 					m := refcodec.Msg{Type: peer.NON, MID: 41000 + 10*k + i, Code: 69, Token: req.Token, Payload: []byte(fmt.Sprintf("D%x-from-%d", req.Token, i))}
 					_, _ = rc.WriteToUDP(peer.Datagram(m), srvUDP)
@@ -223,6 +232,12 @@ func execRealOnce(sc RealScenario) *evid.Failure {
 					fmt.Sscanf(string(parts[1]), "%d", &from)
 					fromSeen[from] = true
 				}
+			}
+			if sc.SameToken && k == 1 {
+				if len(results[k]) != 0 {
+					return evid.Failf("real/discover-duplicate-token-served", sc, "a second discovery with the token of a running one received %d responses", len(results[k]))
+				}
+				continue
 			}
 			if len(fromSeen) != len(responders) {
 				return evid.Failf("real/discover-response-lost", sc, "discovery call %d: %d responders answered with the request's token, the receiver saw responses of %d of them (%v)", k, len(responders), len(fromSeen), results[k])
@@ -308,6 +323,7 @@ func execReal(sc RealScenario) *evid.Failure {
 func genReal(t *rapid.T) RealScenario {
 	sc := RealScenario{Good: rapid.IntRange(1, 3).Draw(t, "good"), Bad: rapid.IntRange(1, 3).Draw(t, "bad"),
 		Responders: rapid.IntRange(0, 3).Draw(t, "responders"), StrayToken: rapid.Bool().Draw(t, "stray"), TwoAtOnce: rapid.Bool().Draw(t, "two")}
+	sc.SameToken = sc.TwoAtOnce && sc.Responders > 0 && rapid.IntRange(0, 2).Draw(t, "sametoken") == 0
 	n := rapid.IntRange(2, 12).Draw(t, "nsteps")
 	for i := 0; i < n; i++ {
 		st := Step{Kind: rapid.SampledFrom([]string{"req", "req", "bytes", "bytes", "bytes"}).Draw(t, "kind")}
@@ -335,7 +351,9 @@ func init() {
 				if sc.Responders > 0 || len(sc.Steps) > 2 {
 					key = string(b)
 				}
-				r.Case("real", key, func() any { return map[string]any{"good": sc.Good, "bad": sc.Bad, "steps": len(sc.Steps), "responders": sc.Responders, "strayToken": sc.StrayToken, "twoAtOnce": sc.TwoAtOnce} }, "real/udp-server")
+				r.Case("real", key, func() any {
+					return map[string]any{"good": sc.Good, "bad": sc.Bad, "steps": len(sc.Steps), "responders": sc.Responders, "strayToken": sc.StrayToken, "twoAtOnce": sc.TwoAtOnce}
+				}, "real/udp-server")
 			}
 			return f
 		})
